@@ -102,3 +102,19 @@ Print Assumptions C14_decode_encode.
 Print Assumptions C14_push.
 Print Assumptions C14_insert.
 Print Assumptions C14_insert_panics_off_boundary.
+
+Theorem C14_retain : forall s keep, Valid s -> Valid (s_retain s keep).
+Proof. exact s_retain_valid. Qed.
+
+Theorem C14_retain_all_is_identity : forall s keep,
+  Valid s -> (length (chars s) <= length keep)%nat -> Forall (fun k => k = true) keep -> s_retain s keep = s.
+Proof. exact s_retain_all. Qed.
+
+Theorem C14_pop : forall s, Valid s -> s <> [] ->
+  exists ch cp, s_pop s = (fst (s_pop s), Some cp) /\ fst (s_pop s) ++ ch = s /\ wf_char ch /\
+                decode ch = Some cp /\ Valid (fst (s_pop s)).
+Proof. exact s_pop_spec. Qed.
+
+Print Assumptions C14_retain.
+Print Assumptions C14_retain_all_is_identity.
+Print Assumptions C14_pop.
